@@ -20,7 +20,11 @@ def gen_case(ctx, i, reuse=None):
     t, v = W.gen_grids(rng, spec, hostile=hostile)
     if reuse is not None:
         spec.v0, t, v = reuse[0], reuse[1].copy(), reuse[2].copy()
+        if len(reuse) > 3 and reuse[3] is not None and len(reuse[3]) == spec.nq:
+            spec.weights = reuse[3].copy()        # ... and, when the q-point count allows, with the same weights
     strains = W.gen_strains(rng, len(v))
+    if reuse is not None and len(reuse) > 4 and reuse[4] is not None and i % 2:
+        strains = reuse[4].copy()                  # ... and the same strain fractions: only the spectrum differs
     fill = FILLS[i % 3]
     calc = W.make_calc(rng, spec, t, v, gamma_fill=fill)
     calc._oracle_spectrum = spec
@@ -45,7 +49,7 @@ def run(ctx):
             rng, hostile, spec, t, v, strains, fill, calc = gen_case(ctx, i, reuse=reuse)
             if reuse is not None:
                 hostile = (hostile or "generic") + "+grid-of-previous-case"
-            prev = (spec.v0, t, v)
+            prev = (spec.v0, t, v, spec.weights, strains)
             pairs = [(0, 0), (1, 1), (2, 2), (0, 1), (0, 2), (1, 2)]
             nontriv_modes = spec.mask.sum() > 0
             for (a, b) in pairs:
@@ -80,6 +84,25 @@ def run(ctx):
                         ctx.violation(f"{kind}:adiabatic-read-raises:{type(exc).__name__}", exc_text(exc), case_id)
                     else:
                         ctx.harness_error("C01.reread", exc)
+                # history: the same calculator object carries a new temperature grid of the same shape (and a new pressure field);
+                # contribution objects created from it afterwards belong to the new grid
+                if (a, b) in ((0, 0), (0, 1)) and i % 2 == 0:
+                    try:
+                        old_t, old_p = calc.t_array, calc.qha_calculator.volume_base.pressures
+                        calc.t_array = numpy.where(old_t > 0, old_t * 1.013 + 0.7, old_t)
+                        calc.qha_calculator.volume_base.pressures = old_p * 1.01
+                        calc.__dict__.pop("_oracle_cache", None)
+                        with numpy.errstate(all="ignore"):
+                            cls_(calc, (strains[:, a], strains[:, b])).value_isothermal      # judged by the monitor on the new grid
+                        ctx.count("objects_on_a_reused_calculator")
+                    except Exception as exc:
+                        if classify_exception(exc) == "code":
+                            ctx.violation(f"{kind}:raises-on-reused-calculator:{type(exc).__name__}", exc_text(exc), case_id)
+                        else:
+                            ctx.harness_error("C01.reuse", exc)
+                    finally:
+                        calc.t_array, calc.qha_calculator.volume_base.pressures = old_t, old_p
+                        calc.__dict__.pop("_oracle_cache", None)
                 nontriv = bool(nontriv_modes and (t > 0).any() and numpy.any(numpy.asarray(val) != 0))
                 ctx.evaluation(f"{kind}|{hostile or 'generic'}|gamma-slots={fill}", (W.spec_digest(spec, t, v), a, b), nontrivial=nontriv,
                                sample={"component": f"c{a+1}{b+1}", "nq": spec.nq, "atoms": spec.natoms, "T": t[:5], "V_head": v[:3],
